@@ -122,7 +122,8 @@ def genFirst (am : AM) : Gen (Page × Option Meta) := do
       let m ← genMeta am
       let mb := match m with | some m => encMeta m | none => []
       let op ← genOpaque am (setBit flags b true)
-      let op := match op with | .btree p n l f _ => if ← Gen.prob 3 4 then .btree p n l f 0 else op | o => o
+      let zeroCycle ← Gen.prob 3 4
+      let op := match op with | .btree p n l f _ => if zeroCycle then .btree p n l f 0 else op | o => o
       let rest ← sparse (8192 - op.size - 24 - mb.length)
       let p ← genPageWith op (mb ++ rest)
       return (p, m)
